@@ -1,6 +1,7 @@
 import Deltio.Lemmas.SubRun
 import Deltio.Lemmas.SysSub
 import Deltio.Lemmas.SysInv
+import Deltio.Lemmas.Fanout
 /-
   C01 — Fan-out without loss: every accepted message reaches every attached subscription.
   Subscription-local part: all turn sequences of the subscription's actor (= all schedules of any
@@ -164,5 +165,126 @@ example :
     let s1 := (exSys.rpc (.publish exT [([1], [])])).1
     (s1.stateOf 2).map (fun st => st.backlog.map (·.data)) = some [[1]] ∧
     (s1.stateOf 3).map (fun st => st.backlog.map (·.data)) = some [[1]] := by decide
+
+/-! ### C01 under ALL interleavings of the message-passing protocol (slice P6, `Proto/Fanout.lean`)
+
+Any number of publishers, other clients and subscriptions, any mailbox capacity, any schedule: the
+labels of the slice are the atomic steps (mailbox enqueue, topic-actor turn, post task enqueued,
+post task failed, reply, subscription-actor turn, subscription actor exit). -/
+
+/-- **No loss under any schedule.** When a Publish has been answered with its ids (`ok`), the post of
+    its batch has reached EVERY subscription that was attached when the topic actor accepted it: it
+    is in that subscription's mailbox or was handled by its actor (in `seq`), unless the
+    subscription's actor has exited (it was deleted). -/
+theorem C01_schedules (cap : Nat) (s : P6.State) (h : P6.Reachable (P6.init cap) s)
+    (d : P6.Done) (hd : d ∈ s.done) (hok : d.ok = true) (x : Nat) (hx : x ∈ d.fan) :
+    P6.Delivered s x d.b :=
+  (P6.inv_reachable h).okDone d hd hok x hx
+
+/-- The fan-out set of a publish turn is the topic actor's attached set at the moment the turn
+    begins (every `attach` handled before, no `remove` since). -/
+theorem C01_fan_is_attached (s s' : P6.State) (r n : Nat) (rest : List P6.TReq)
+    (hc : s.cur = none) (ht : s.tmb = .publish r n :: rest) (h : P6.step s .topicTake = some s') :
+    s'.cur = some { r := r, b := ⟨s.ctr, n⟩, fan := s.subs, pending := s.subs } := by
+  simp [P6.step, hc, ht] at h; subst h; rfl
+
+/-- **Nothing foreign under any schedule.** Whatever a subscription holds was published by a turn
+    whose fan-out set contained it — never a message accepted before it was attached or after it
+    was removed, never another topic's. -/
+theorem C01_schedules_no_foreign (cap : Nat) (s : P6.State) (h : P6.Reachable (P6.init cap) s)
+    (x : Nat) (b : P6.Batch) (hb : b ∈ P6.seq s x) :
+    (∃ d ∈ s.done, d.b = b ∧ x ∈ d.fan) ∨ (∃ c, s.cur = some c ∧ c.b = b ∧ x ∈ c.fan ∧ x ∉ c.pending) :=
+  (P6.inv_reachable h).origin x b hb
+
+/-- Mailboxes are FIFO queues: a step appends one request at the end, takes the head, or (actor
+    exit) drops everything. So a request enqueued after a Publish was answered is handled after that
+    Publish's post. -/
+theorem C01_mailbox_fifo (s s' : P6.State) (l : P6.Label) (h : P6.step s l = some s') (x : Nat) :
+    s'.smb x = s.smb x ∨ (∃ m, s'.smb x = s.smb x ++ [m]) ∨ (∃ m, s.smb x = m :: s'.smb x) ∨ s'.smb x = [] := by
+  cases l <;> simp only [P6.step] at h
+  case cliPublish r n => split at h <;> simp at h; subst h; exact .inl rfl
+  case cliAttach y => split at h <;> simp at h; subst h; exact .inl rfl
+  case cliRemove y => split at h <;> simp at h; subst h; exact .inl rfl
+  case cliOther y =>
+    split at h <;> simp at h; subst h
+    by_cases hy : x = y
+    · subst hy; exact .inr (.inl ⟨.other, by simp⟩)
+    · exact .inl (by simp [P6.upd_other _ _ _ _ hy])
+  case topicTake => split at h <;> simp at h <;> (subst h; exact .inl rfl)
+  case postDone y =>
+    split at h
+    · rename_i c _
+      split at h <;> simp at h; subst h
+      by_cases hy : x = y
+      · subst hy; exact .inr (.inl ⟨.post c.b, by simp⟩)
+      · exact .inl (by simp [P6.upd_other _ _ _ _ hy])
+    · simp at h
+  case postFail y =>
+    split at h
+    · split at h <;> simp at h; subst h; exact .inl rfl
+    · simp at h
+  case reply =>
+    split at h
+    · split at h <;> simp at h; subst h; exact .inl rfl
+    · simp at h
+  case subTake y =>
+    split at h
+    · simp at h
+    · split at h
+      · simp at h
+      · rename_i b rest hm; simp at h; subst h
+        by_cases hy : x = y
+        · subst hy; exact .inr (.inr (.inl ⟨.post b, by simp [hm]⟩))
+        · exact .inl (by simp [P6.upd_other _ _ _ _ hy])
+      · rename_i rest hm; simp at h; subst h
+        by_cases hy : x = y
+        · subst hy; exact .inr (.inr (.inl ⟨.other, by simp [hm]⟩))
+        · exact .inl (by simp [P6.upd_other _ _ _ _ hy])
+  case subClose y =>
+    split at h
+    · simp at h
+    · simp at h; subst h
+      by_cases hy : x = y
+      · subst hy; exact .inr (.inr (.inr (by simp)))
+      · exact .inl (by simp [P6.upd_other _ _ _ _ hy])
+
+/-- A running publish turn can always make progress, whatever the mailboxes hold (capacity ≥ 1):
+    the reply, a post that has room, a post that fails, or the turn of the subscription actor
+    whose full mailbox blocks the post. -/
+theorem C01_publish_turn_progress (s : P6.State) (hcap : 1 ≤ s.cap) (c : P6.Cur) (hc : s.cur = some c) :
+    ∃ l, l.internal = true ∧ (P6.step s l).isSome = true := by
+  cases hp : c.pending with
+  | nil => exact ⟨.reply, rfl, by simp [P6.step, hc, hp]⟩
+  | cons x rest =>
+    have hx : x ∈ c.pending := by rw [hp]; simp
+    cases hcl : s.closed x with
+    | true => exact ⟨.postFail x, rfl, by simp [P6.step, hc, hx, hcl]⟩
+    | false =>
+      by_cases hl : (s.smb x).length < s.cap
+      · exact ⟨.postDone x, rfl, by simp [P6.step, hc, hx, hcl, hl]⟩
+      · refine ⟨.subTake x, rfl, ?_⟩
+        cases hm : s.smb x with
+        | nil => simp [hm] at hl; omega
+        | cons m rest' => cases m <;> simp [P6.step, hcl, hm]
+
+/-! non-vacuity: capacity 1, two subscriptions, two publishers; the first publish is answered while
+    the second one's post to subscription 2 is still blocked behind the first one's. -/
+example :
+    (P6.run (P6.init 1)
+      [.cliAttach 1, .topicTake, .cliAttach 2, .topicTake, .cliPublish 7 2, .topicTake, .cliPublish 8 1,
+       .postDone 2, .postDone 1, .reply, .topicTake, .subTake 1, .postDone 1]).map
+      (fun s => (s.done.map (fun d => (d.r, d.ok, d.fan)), s.cur.map (·.pending))) =
+    some ([(7, true, [1, 2])], some [2]) ∧
+    (P6.run (P6.init 1)
+      [.cliAttach 1, .topicTake, .cliAttach 2, .topicTake, .cliPublish 7 2, .topicTake, .cliPublish 8 1,
+       .postDone 2, .postDone 1, .reply, .topicTake, .subTake 1, .postDone 1]).map
+      (fun s => (s.taken 1, P6.posts (s.smb 1), P6.posts (s.smb 2))) =
+    some ([P6.Batch.mk 0 2], [P6.Batch.mk 2 1], [P6.Batch.mk 0 2]) := by decide
+
+/-- … and a post that finds the subscription's actor gone fails the Publish (no ids returned). -/
+example :
+    (P6.run (P6.init 1)
+      [.cliAttach 1, .topicTake, .cliPublish 7 2, .subClose 1, .topicTake, .postFail 1]).map
+      (fun s => s.done.map (fun d => (d.r, d.ok))) = some [(7, false)] := by decide
 
 end Deltio
